@@ -87,6 +87,33 @@ def run_isolated(case, g, tier, res):
             # numpy refuses an empty option list: only when nothing is compatible
             c.prove(Not(core.Or(*adm)) if k else True, "isolated: refusal only when nothing is compatible", detail("raised although a compatible descriptor exists"))
             return "refused"
+        if not seen and len(rng.other_calls) == 1 and k > 0:
+            # no rng.choice: the pick is computed from one uniform draw u (inverse-CDF sampling and the like).  Its law is the
+            # measure of the draws leading to each index: on this path (which returns idx) the set of u satisfying the path
+            # condition, weights fixed, must not be longer than the reference probability of idx by more than 10 points.
+            import z3
+
+            ii = int(idx)
+            c.prove(0 <= ii < k and adm[ii], "isolated: options are the compatible descriptors", detail("the returned descriptor is not compatible"))
+            comp = [i for i in range(k) if (adm[i] is True or (adm[i] is not False and bool(adm[i])))]
+            ws = [w0[i] for i in comp]
+            S = gendrive.total(ws)
+            eq = And(*[w == ws[0] for w in ws[1:]]) if len(ws) > 1 else True
+            u = rng.other_calls[0][1]
+            uz = u.n.z3()
+            u2 = z3.Real("u_other")
+            A2 = z3.substitute(z3.And(*c.solver.assertions()), (uz, u2))
+            wi = core._real(w0[ii])
+            Sr = core._real(S)
+            n = len(ws)
+            tenth = z3.RealVal("1/10")
+            prop_long = z3.And(A2, (u2 - uz) * Sr.term() > wi.term() + tenth * Sr.term())
+            unif_long = z3.And(A2, (u2 - uz) * n > 1 + tenth * n)
+            eqz = core._b(eq) if not isinstance(eq, bool) else z3.BoolVal(eq)
+            c.prove(core.SymBool(z3.Not(z3.Or(z3.And(eqz, unif_long), z3.And(z3.Not(eqz), prop_long)))),
+                    "isolated: pick law (measure of the uniform draw) follows the weights", detail("measure: an index is returned for a set of uniform draws longer than its probability by more than 10 points"))
+            c.prove(And(*[bd.weight == w for bd, w in zip(bds, w0)]), "isolated: weights untouched", detail("a descriptor weight was modified by the pick"))
+            return ("measure", ii)
         rec = seen[-1] if seen else None
         ok = rec is not None and len(seen) == 1
         c.prove(ok, "isolated: exactly one draw", detail("not exactly one rng.choice call"))
@@ -128,6 +155,20 @@ def replay_isolated(rp, gb):
         rb = _parse_ref(*rp["bond"])
         adm = [i for i, r in enumerate(refs) if _rule(rb, r)]
     w0 = [float(b.weight) for b in bds]
+    if rp.get("what", "").startswith("measure:"):
+        # empirical law of the plain function (4000 seeded calls) against the reference probabilities
+        rr = np.random.default_rng(99)
+        cnt = {}
+        for _ in range(4000):
+            try:
+                j = int(choose_compatible_weight(bds, bond, rr))
+            except ValueError:
+                return False, "refused"
+            cnt[j] = cnt.get(j, 0) + 1
+        ws = [w0[i] for i in adm]
+        ref = {i: (1.0 / len(ws) if all(w == ws[0] for w in ws) else w0[i] / sum(ws)) for i in adm}
+        worst = max((cnt.get(i, 0) / 4000.0 - ref.get(i, 0.0) for i in set(cnt) | set(ref)), default=0.0)
+        return worst > 0.05, f"frequencies {cnt} of 4000 calls vs reference {ref}"
     seen = []
     rng = gendrive.ScriptedRng([rp.get("pick") or 0], on_choice=lambda rec, c: seen.append(rec))
     problems = []
